@@ -423,25 +423,30 @@ def check_bitstring_and_audit(ctx):
     F = ctx.F
     check_linear_impls(ctx)
     # ---- Bitstring ---------------------------------------------------------------------
+    def gene_rule(ctx, canon):
+        f = ctx.fn(BS + "crossover_gene")
+        paths = [p for p in (ctx.cpaths(f) if canon else ctx.paths(f)) if p.end != "unreachable"]
+        okp = [p for p in paths if not is_err_return(p)]
+        erp = [p for p in paths if is_err_return(p)]
+        for p in okp:
+            gm = [c for c in p.calls() if callee_is(c, "Linear::gene_mut", "[T]::get_mut")]
+            sw = [c for c in p.calls() if callee_is(c, "mem::swap")]
+            ok = len(gm) == 2 and len(sw) == 1 and gm[0][3][1] == ("param", 3) and gm[1][3][1] == ("param", 3) and \
+                {peel(gm[0][3][0], ()), peel(gm[1][3][0], ())} == {("param", 1), ("param", 2)}
+            if ok:
+                a, b = sw[0][3][0], sw[0][3][1]
+                ok = {a, b} == {("field", gm[0], 0, "Some"), ("field", gm[1], 0, "Some")}
+            ctx.check(ok, "R10.6", "crossover_gene/swaps-exactly-gene(index)-of-both", ", ".join(short(c, 3) for c in sw), f.at())
+        ctx.floor("R10.6", len(okp), 1, "crossover_gene success paths")
+        for i, p in enumerate(erp):
+            ok = any(x[0] == "agg" and path_ends(x[2], "GeneAccess::GeneAccess") and x[3][0] == ("param", 3) and callee_is(x[3][1], "Linear::size", "Vec::len") for x in subexprs(p.ret)) and \
+                not any(callee_is(c, "mem::swap") for c in p.calls())
+            ctx.check(ok, "R10.6", "crossover_gene/out-of-range->GeneAccess(index,size)/%d" % i, short(p.ret, 5), f.at())
+        ctx.floor("R10.6", len(erp), 1, "crossover_gene error paths")
+    from . import ckit as _Kg
+    # the same clauses over canonical paths accept `a.gene_mut(i).zip(b.gene_mut(i)).map(|(x, y)| swap(x, y)).ok_or_else(..)`
+    _Kg.either(ctx, lambda c: gene_rule(c, False), lambda c: gene_rule(c, True))
     f = ctx.fn(BS + "crossover_gene")
-    paths = [p for p in ctx.paths(f) if p.end != "unreachable"]
-    okp = [p for p in paths if not is_err_return(p)]
-    erp = [p for p in paths if is_err_return(p)]
-    for p in okp:
-        gm = [c for c in p.calls() if callee_is(c, "Linear::gene_mut", "[T]::get_mut")]
-        sw = [c for c in p.calls() if callee_is(c, "mem::swap")]
-        ok = len(gm) == 2 and len(sw) == 1 and gm[0][3][1] == ("param", 3) and gm[1][3][1] == ("param", 3) and \
-            {peel(gm[0][3][0], ()), peel(gm[1][3][0], ())} == {("param", 1), ("param", 2)}
-        if ok:
-            a, b = sw[0][3][0], sw[0][3][1]
-            ok = {a, b} == {("field", gm[0], 0, "Some"), ("field", gm[1], 0, "Some")}
-        ctx.check(ok, "R10.6", "crossover_gene/swaps-exactly-gene(index)-of-both", ", ".join(short(c, 3) for c in sw), f.at())
-    ctx.floor("R10.6", len(okp), 1, "crossover_gene success paths")
-    for i, p in enumerate(erp):
-        ok = any(x[0] == "agg" and path_ends(x[2], "GeneAccess::GeneAccess") and x[3][0] == ("param", 3) and callee_is(x[3][1], "Linear::size", "Vec::len") for x in subexprs(p.ret)) and \
-            not any(callee_is(c, "mem::swap") for c in p.calls())
-        ctx.check(ok, "R10.6", "crossover_gene/out-of-range->GeneAccess(index,size)/%d" % i, short(p.ret, 5), f.at())
-    ctx.floor("R10.6", len(erp), 1, "crossover_gene error paths")
 
     f = ctx.fn(BS + "crossover_segment")
     # canonical paths: `match (a.get_mut(r), b.get_mut(r))`, `let (Some(..), Some(..)) = .. else`, and
